@@ -181,6 +181,9 @@ fn bisect(prop: &str, tier: Tier, fam_idx: usize, fam: &dyn Family, start: u64, 
 }
 
 pub fn parent(prop: &'static str, tier: Tier, maker: FamilyMaker, rep: &mut Report) {
+    if crate::hist::replaying() {
+        return;
+    }
     let fams = maker(tier);
     let nt = crate::enumr::n_threads();
     // work list
